@@ -12,8 +12,8 @@ def run(chk):
                 "partition, id determinism, unchanged init fields are the same objects. Non-trivial: >= 3 steps. "
                 "Trace: recorded random histories validated by Trace_Registry (rejections at dup/replace steps).")
     quick = chk.tier == "quick"
-    registry.run_machine(chk, PID, ["leaf-unary-3", "dup-4"],
-                         ["leaf-unary-3", "many-3", "sub-opt-3", "origins-3", "full-3", "dup-4", "dup-5"], "many-4")
+    registry.run_machine(chk, PID, ["leaf-unary-3", "dup-4", "cachey-3"],
+                         ["leaf-unary-3", "many-3", "sub-opt-3", "origins-3", "full-3", "dup-4", "dup-5", "cachey-3"], "many-4")
     registry.run_traces(chk, PID, 60 if quick else 800, 30 if quick else 50)
 
 
